@@ -36,7 +36,7 @@ _CFG = {"items": 60, "seeds": 7, "randoms": 2, "perms": 6}
 def budgets(tier):
     if tier == "quick":
         return {"core": 1, "frontier": 0, "shards": 1, "items": 60, "seeds": 7, "randoms": 2, "perms": 6}
-    return {"core": 4, "frontier": 0, "shards": 4, "items": 300, "seeds": 47, "randoms": 6, "perms": 40}
+    return {"core": 24, "frontier": 0, "shards": 4, "items": 60, "seeds": 31, "randoms": 4, "perms": 12}
 
 
 def configure(tier, b):
